@@ -426,6 +426,63 @@ def canon_out(rn, o, grant=False):
     return tuple(o)
 
 
+def _unhex(tok):
+    try:
+        return bytes.fromhex(tok).decode("utf-8", "replace") if tok not in ("-", "~") else ""
+    except ValueError:
+        return tok
+
+
+def show_str(tok):
+    """a name / key token of the trace, readable: long strings are abbreviated by the harness as \\x7fL<len>:<sha256 prefix>"""
+    t = _unhex(tok)
+    if t.startswith("\x7fL"):
+        n, _, h = t[2:].partition(":")
+        return "<%s bytes, sha256 %s..>" % (n, h)
+    return repr(t)
+
+
+def http_note(blk):
+    """the `N http=<status> body=<hex>` note of a refused REST exchange -> dict(status, body, grpc_code)"""
+    out = {}
+    for n in blk["n"]:
+        if n.startswith("http="):
+            f = dict(x.split("=", 1) for x in n.split() if "=" in x)
+            out["status"] = f.get("http")
+            out["body"] = _unhex(f.get("body", "-"))
+            try:
+                out["grpc_code"] = json.loads(out["body"]).get("code")
+            except Exception:  # noqa
+                out["grpc_code"] = None
+    return out
+
+
+def exchange_note(blk):
+    """the `N ev=<i> render=<mode> body_bytes=.. name_bytes=.. key_bytes=..` note of a REST exchange -> dict"""
+    for n in blk["n"]:
+        if n.startswith("ev="):
+            return dict(x.split("=", 1) for x in n.split() if "=" in x)
+    return {}
+
+
+def describe_request(blk):
+    e = blk["e"]
+    x = exchange_note(blk)
+    if e[0] != "req" or len(e) < 4:
+        return " ".join(e)
+    if e[2] == "try":
+        d = "TryLock(name=%s size=%s lock_timeout=%s)" % (show_str(e[3]), e[4], e[5])
+    elif e[2] == "unl":
+        d = "Unlock(name=%s key=%s)" % (show_str(e[3]), show_str(e[4]))
+    elif e[2] == "ren":
+        d = "Renew(name=%s key=%s lock_timeout=%s)" % (show_str(e[3]), show_str(e[4]), e[5])
+    else:
+        d = " ".join(e[2:])
+    if x:
+        d += " [JSON body of %s bytes, rendering %s]" % (x.get("body_bytes"), x.get("render"))
+    return d
+
+
 def c15_oracle(case):
     """The property on one real c15 case: list of (block index, rule, text). Empty = REST and gRPC agree."""
     fails = []
@@ -477,7 +534,19 @@ def c15_oracle(case):
                 fails.append((bi, "rest-session-ended-while-connection-lives", "ConnEnd for %d REST session(s) during an advance although every gap is below the timeout" % len(ends)))
         elif e[0] == "req":
             if st != ["200"]:
-                fails.append((bi, "rest-refused", "REST answered HTTP %s to %s; the same request over gRPC was served: %s" % (st, " ".join(e[2:3]), " ".join(blk["p"][0]) if blk["p"] else "?")))
+                http = http_note(blk)
+                gerr = next((o for o in blk["p"] if o and o[0] == "rpcerror"), None)
+                if gerr is not None:
+                    # both transports refused the request: the same way (the gateway's error body carries the gRPC status code)?
+                    gcode = next((t[5:] for t in gerr if t.startswith("code=")), "?")
+                    if http.get("grpc_code") is not None and str(http["grpc_code"]) == gcode:
+                        case["both_refused_alike"] = case.get("both_refused_alike", 0) + 1
+                        continue
+                    fails.append((bi, "refused-differently", "REST answered HTTP %s %s; gRPC refused the same request with status code %s (%s)"
+                                  % (st, http.get("body", ""), gcode, _unhex(gerr[1]) if len(gerr) > 1 else "")))
+                    continue
+                fails.append((bi, "rest-refused", "REST answered HTTP %s %s to %s; the same request over gRPC was served: %s"
+                              % (st, http.get("body", ""), describe_request(blk), " ".join(blk["p"][0]) if blk["p"] else "?")))
                 # keep the renaming aligned: the gRPC side granted a key the REST side never saw
                 for o in blk["p"]:
                     if o[:2] == ["r", "lock"] and o[2] == "1":
@@ -486,7 +555,12 @@ def c15_oracle(case):
             ro = [canon_out(rr, o, grant=True) for o in blk["o"] if o and o[0] != "st" and o[0] != "end"]
             go = [canon_out(rg, o, grant=True) for o in blk["p"]]
             if ro != go:
-                fails.append((bi, "response", "REST answered %s, gRPC answered %s" % (ro, go)))
+                gerr = next((o for o in blk["p"] if o and o[0] == "rpcerror"), None)
+                if gerr is not None:
+                    fails.append((bi, "grpc-refused", "gRPC refused %s with %s (%s); the same request over REST was served: %s"
+                                  % (describe_request(blk), next((t for t in gerr if t.startswith("code=")), "?"), _unhex(gerr[1]) if len(gerr) > 1 else "", ro)))
+                else:
+                    fails.append((bi, "response", "REST answered %s, gRPC answered %s" % (ro, go)))
             elif blk["n"][:1] != blk["gn"][:1]:
                 fails.append((bi, "response-error-or-name", "REST: %s / gRPC: %s" % (blk["n"][:1], blk["gn"][:1])))
             if ends:
@@ -594,8 +668,25 @@ PROFILE_C15 = {
 }
 
 
+def _rep(unit, count, suffix=b""):
+    """compact form of a long string (harness/restdiff/types.go Ev.Name): unit repeated count times + suffix"""
+    return "rep:%s:%d%s" % (unit.hex(), count, (":" + suffix.hex()) if suffix else "")
+
+
+# Long lock names and keys (a small share of the histories): "the same request gets the same response" includes requests whose
+# body is large. Sizes: 1 KB; a ladder around 4096 bytes (the JSON body adds 10..90 bytes to the name, multi-byte and
+# JSON-escaped characters count by their encoded size); 5000; 8 KB of two-byte characters; 100 KB; 1 MiB. All of them are below
+# every documented limit of both transports (grpc-go's default maximum receive size is 4 MiB; net/http and grpc-gateway have none),
+# so on the unchanged tree both transports serve them.
+LONG_NAMES = ([_rep(b"a", 1024)] + [_rep(b"n", k) for k in (4000, 4030, 4050, 4070, 4085, 4096, 4097, 4120, 4200)]
+              + [_rep(b"x", 5000), _rep("\u00e9".encode(), 2035), _rep("\u00e9".encode(), 4096), _rep(b"<", 690), _rep(b'"', 2060, b"q"),
+                 _rep(b"ab", 8192), _rep(b"b", 100 * 1024), _rep(b"c", 1 << 20), _rep(b"long-", 200000, b"tail")])
+LONG_KEYS = [_rep(b"k", 4100), _rep(b"k", 5000), _rep(b"0123456789abcdef", 4096)]
+PROFILE_C15.update({"long_pct": 12, "long_names": LONG_NAMES, "long_keys": LONG_KEYS})
+
+
 PROFILE_MIXED = dict(PROFILE_C15, mode="mixed", weights={"create": 8, "delete": 5, "try": 26, "unl": 24, "ren": 18, "noop": 2, "adv": 17},
-                     sizes=[2, 3, 3], lts=[None, 2, 3, 5, 5, 30, 0, -1], renew_lts=[1, 2, 3, 3, 0, -1], names=["61", "62"], bad_key_pct=5, tmos=[2000000007, 5 * S, 600 * S])
+                     sizes=[2, 3, 3], lts=[None, 2, 3, 5, 5, 30, 0, -1], renew_lts=[1, 2, 3, 3, 0, -1], names=["61", "62"], bad_key_pct=5, tmos=[2000000007, 5 * S, 600 * S], long_pct=0)
 
 
 def shrink_history(ctx, b, h, fails_fn, budget=30):
@@ -609,7 +700,7 @@ def describe_first(case, bi):
     if bi is None or bi >= len(case["blocks"]):
         return None
     blk = case["blocks"][bi]
-    return {"event_index": bi, "rest_event": " ".join(blk["e"]), "rest_outputs": [" ".join(o) for o in blk["o"]], "rest_notes": blk["n"],
+    return {"event_index": bi, "request": describe_request(blk), "rest_http_error": http_note(blk) or None, "exchange": exchange_note(blk) or None, "rest_event": " ".join(blk["e"]), "rest_outputs": [" ".join(o) for o in blk["o"]], "rest_notes": blk["n"],
             "grpc_event": " ".join(blk["g"]) if blk["g"] else None, "grpc_outputs": [" ".join(o) for o in blk["p"]], "grpc_notes": blk["gn"]}
 
 
@@ -655,8 +746,14 @@ def report_failures(ctx, b, batch, prop_fails, mode_runner, what, reported_limit
                 bb = mode_runner([hh])
                 return bool(bb["fails"]) or bool(bb["crashes"])
             shr = shrink_history(ctx, b, h, still)
+        ff = describe_first(case, fails[0][0]) if case else None
+        try:
+            # the symbolic event of the failing exchange (long names in their compact rep: form), by its index in the history
+            ff["symbolic_event"] = h["events"][int(ff["exchange"]["ev"])]
+        except Exception:  # noqa
+            pass
         ctx.violation({"kind": "history", "property": ctx.prop, "failed_checks": ["%s@%d: %s" % (r, i, t[:400]) for i, r, t in fails[:6]],
-                       "first_failure": describe_first(case, fails[0][0]) if case else None,
+                       "first_failure": ff,
                        "history": h, "shrunk": shr, "trace": case["lines"] if case else None, "seed": ctx.seed,
                        "model_says": (batch["results"].get(hid) or {}).get("M", [])[:20],
                        "replay_cmd": "bin/check %s --replay <this file>" % ctx.prop},
@@ -769,6 +866,38 @@ def run(ctx):
                     except (ValueError, IndexError):
                         pass
     tie["malformed_parameters_sent_over_both_transports"] = mal
+    # long names / keys: what was actually executed (from the exchange notes of the real traces)
+    lg = {"histories_with_long_names": 0, "exchanges_with_a_name_or_key_over_128_bytes": 0, "request_bodies_over_4096_bytes": 0, "request_bodies_over_64KiB": 0,
+          "request_bodies_of_1MiB_or_more": 0, "largest_request_body_bytes": 0, "distinct_long_name_lengths": set(), "served_alike_by_both_transports": 0,
+          "refused_alike_by_both_transports": 0}
+    for bb in batches:
+        for hid, case in bb["cases"].items():
+            any_long = False
+            lg["refused_alike_by_both_transports"] += case.get("both_refused_alike", 0)
+            for blk in case["blocks"]:
+                if blk["e"][0] != "req":
+                    continue
+                x = exchange_note(blk)
+                try:
+                    nb, kb, bbytes = int(x.get("name_bytes", 0)), int(x.get("key_bytes", 0)), int(x.get("body_bytes", 0))
+                except ValueError:
+                    continue
+                if nb > 128 or kb > 128:
+                    any_long = True
+                    lg["exchanges_with_a_name_or_key_over_128_bytes"] += 1
+                    if nb > 128:
+                        lg["distinct_long_name_lengths"].add(nb)
+                    if blk["g"] is not None and hid not in bb["oracle"]:
+                        lg["served_alike_by_both_transports"] += 1
+                lg["request_bodies_over_4096_bytes"] += bbytes > 4096
+                lg["request_bodies_over_64KiB"] += bbytes > 65536
+                lg["request_bodies_of_1MiB_or_more"] += bbytes >= (1 << 20)
+                lg["largest_request_body_bytes"] = max(lg["largest_request_body_bytes"], bbytes)
+            lg["histories_with_long_names"] += any_long
+    lg["distinct_long_name_lengths"] = sorted(lg["distinct_long_name_lengths"])
+    lg["pool"] = "%d long names (1 KB; 4000..4200 bytes around 4096 incl. two-byte and JSON-escaped characters; 5000; 8 KB multi-byte; 16 KB; 100 KB; 1 MiB), %d long keys; %d %% of the histories draw from them" % (
+        len(LONG_NAMES), len(LONG_KEYS), PROFILE_C15["long_pct"])
+    tie["long_names_and_keys"] = lg
     report_crashes(ctx, crashes, "the gateway crashed or hung")
     if n_mis and not n_fail and not crashes:
         hid, mm, r, bb = first_mis
